@@ -4,7 +4,7 @@
     every run): with extrapolation off an OutOfBoundsError is raised exactly when a coordinate is NaN or lies
     outside [g_first - tol, g_last + tol], tol = 1e-14*|g_last| >= 0, and nothing else is ever raised (in
     particular no point on or inside the grid raises, whatever the sign of the grid coordinates);
-  * the 1-d piecewise-linear kernel Interp1DSlinear (one-point path): value, derivative w.r.t. x (C16), node
+  * the 1-d kernels Interp1DSlinear, Interp1DLagrange2, Interp1DLagrange3 (one-point path): value, derivative w.r.t. x (C16), node
     exactness, and coherence of its per-cell coefficient cache.
 Everything else (multi-dimensional recursion, akima / lagrange / cubic / scipy algebra, spline mode) is decided in
 the BOUNDED tier bounded/c15_interp.py."""
@@ -100,3 +100,106 @@ for _k in (-1, 0, 1, 2, 3):
              name=SL + '::Interp1DSlinear.interpolate[4-point axis, bracket %d]' % _k,
              canaries=([('upper extrapolation bracket not mapped onto the last cell', ('if idx == n - 1:\n            idx = n - 2', 'if idx == n - 1:\n            idx = n - 1'), 'bounds')] if _k == 3 else
                        [('slope divided by the wrong interval', ('a[1] = (c1 - c0) / (x1 - x0)', 'a[1] = (c1 - c0) / (x1 - grid[0])'), 'post', SL + '::Interp1DSlinear.compute_coeffs')] if _k == 1 else []))
+
+
+# ---- Interp1DLagrange2, one-point path, on a 4-point axis: the value is THE quadratic through the three nodes of the
+# stencil (denominators cleared: exact on its nodes and on every quadratic), the derivative is its derivative -------
+L2 = 'openmdao/components/interp_util/interp_lagrange2.py'
+
+
+def native_l2(vals, np, om):
+    from pyvc.native_helpers import A
+    from openmdao.components.interp_util.interp_lagrange2 import Interp1DLagrange2
+    s = vals['self']
+    g = A(s['grid'][0])
+    t = Interp1DLagrange2((g,), A(s['values']), Interp1DLagrange2)
+    t.coeffs = {}
+    return dict(self=t, x=A(vals['x']), idx=[int(vals['idx'][0])]), dict(ng=4)
+
+
+def sample_l2(k):
+    def samp(rng):
+        g, xs = _inc_grid(rng, 4)
+        vals = {'__arr__': [{'__frac__': [rng.choice([-24, -8, -3, 0, 1, 5, 16, 40]), 8]} for _ in range(4)], 'shape': [4], 'dtype': 'real'}
+        c = min(max(k, 0), 1)
+        x = rng.choice([xs[c], xs[c + 1], xs[c + 2], xs[c] + 1, xs[0] - 7, xs[-1] + 5, (xs[c] + xs[c + 1]) // 2])
+        return {'self': {'__obj__': 'Interp1DLagrange2', 'id': 0, 'attrs': {'grid': {'__seq__': [g], 'tuple': True}, 'values': vals, 'coeffs': {'__dict__': []}}},
+                'x': {'__arr__': [{'__frac__': [x, 8]}], 'shape': [1], 'dtype': 'real'}, 'idx': {'__seq__': [k], 'tuple': False}}
+    return samp
+
+
+for _k in (-1, 0, 1, 2, 3):
+    _c = min(max(_k, 0), 1)          # first node of the 3-point stencil (brackets beyond n-3 use the last stencil)
+    X1, X2, X3 = ('self.grid[0][%d]' % (_c + j) for j in range(3))
+    V1, V2, V3 = ('self.values[%d]' % (_c + j) for j in range(3))
+    DEN = '((%s - %s) * (%s - %s) * (%s - %s))' % (X1, X2, X1, X3, X2, X3)
+    NUM = '({v1} * (x[0] - {x2}) * (x[0] - {x3}) * ({x2} - {x3}) - {v2} * (x[0] - {x1}) * (x[0] - {x3}) * ({x1} - {x3}) + {v3} * (x[0] - {x1}) * (x[0] - {x2}) * ({x1} - {x2}))'.format(
+        v1=V1, v2=V2, v3=V3, x1=X1, x2=X2, x3=X3)
+    DNUM = '({v1} * ((x[0] - {x2}) + (x[0] - {x3})) * ({x2} - {x3}) - {v2} * ((x[0] - {x1}) + (x[0] - {x3})) * ({x1} - {x3}) + {v3} * ((x[0] - {x1}) + (x[0] - {x2})) * ({x1} - {x2}))'.format(
+        v1=V1, v2=V2, v3=V3, x1=X1, x2=X2, x3=X3)
+    contract(L2 + '::Interp1DLagrange2.interpolate', ['C15', 'C16'],
+             dict(self=Obj('Interp1DLagrange2', grid=TupleT(Arr(4)), values=Arr(4), coeffs=DictT({})), x=Arr(1), idx=ListT(_k)),
+             requires=['all(self.grid[0][k] < self.grid[0][k + 1] for k in range(3))'],
+             ensures=['approx(result[0] * %s, %s)' % (DEN, NUM),
+                      'approx(result[1] * %s, %s)' % (DEN, DNUM),
+                      'result[2] is None and result[3] is None',
+                      '%d in self.coeffs' % _c],
+             modifies=['self.coeffs'], inline={'compute_coeffs'}, native=native_l2, sampler=sample_l2(_k),
+             name=L2 + '::Interp1DLagrange2.interpolate[4-point axis, bracket %d]' % _k,
+             canaries=([('last stencil starts one node too late', ('if i_x > n - 3:\n            i_x = n - 3', 'if i_x > n - 3:\n            i_x = n - 2'), 'bounds')] if _k == 3 else
+                       [('linear coefficient uses the wrong node pair', ('[x2 + x3,\n                           x3,\n                           x2]', '[x2 + x3,\n                           x2,\n                           x3]'), 'post', L2 + '::Interp1DLagrange2.compute_coeffs')] if _k == 1 else []))
+
+
+# ---- Interp1DLagrange3, one-point path, on a 5-point axis: the cubic through the four nodes of the stencil ----------
+L3 = 'openmdao/components/interp_util/interp_lagrange3.py'
+
+
+def lagrange_form(nodes, vals, x='x[0]'):
+    """sum_j v_j prod_{m != j} (x - x_m) / (x_j - x_m), and its derivative w.r.t. x, as clause texts"""
+    terms, dterms = [], []
+    for j, (xj, vj) in enumerate(zip(nodes, vals)):
+        others = [xm for m, xm in enumerate(nodes) if m != j]
+        den = ' * '.join('(%s - %s)' % (xj, xm) for xm in others)
+        terms.append('%s * %s / (%s)' % (vj, ' * '.join('(%s - %s)' % (x, xm) for xm in others), den))
+        dsum = ' + '.join('(' + ' * '.join('(%s - %s)' % (x, xm) for q, xm in enumerate(others) if q != p) + ')' if len(others) > 1 else '1'
+                          for p in range(len(others)))
+        dterms.append('%s * (%s) / (%s)' % (vj, dsum, den))
+    return '(' + ' + '.join(terms) + ')', '(' + ' + '.join(dterms) + ')'
+
+
+def native_l3(vals, np, om):
+    from pyvc.native_helpers import A
+    from openmdao.components.interp_util.interp_lagrange3 import Interp1DLagrange3
+    s = vals['self']
+    g = A(s['grid'][0])
+    t = Interp1DLagrange3((g,), A(s['values']), Interp1DLagrange3)
+    t.coeffs = {}
+    return dict(self=t, x=A(vals['x']), idx=[int(vals['idx'][0])]), dict(ng=5)
+
+
+def sample_l3(k):
+    def samp(rng):
+        g, xs = _inc_grid(rng, 5)
+        vals = {'__arr__': [{'__frac__': [rng.choice([-24, -8, -3, 0, 1, 5, 16, 40]), 8]} for _ in range(5)], 'shape': [5], 'dtype': 'real'}
+        c = min(max(k, 1), 2) - 1
+        x = rng.choice([xs[c], xs[c + 1], xs[c + 3], xs[c] + 1, xs[0] - 7, xs[-1] + 5, (xs[c + 1] + xs[c + 2]) // 2])
+        return {'self': {'__obj__': 'Interp1DLagrange3', 'id': 0, 'attrs': {'grid': {'__seq__': [g], 'tuple': True}, 'values': vals, 'coeffs': {'__dict__': []}}},
+                'x': {'__arr__': [{'__frac__': [x, 8]}], 'shape': [1], 'dtype': 'real'}, 'idx': {'__seq__': [k], 'tuple': False}}
+    return samp
+
+
+for _k in (-1, 0, 1, 2, 3, 4):
+    _ix = min(max(_k, 1), 2)            # bracket clamped to [1, n - 3]; the stencil is ix-1 .. ix+2
+    _c = _ix - 1
+    VAL, DVAL = lagrange_form(['self.grid[0][%d]' % (_c + j) for j in range(4)], ['self.values[%d]' % (_c + j) for j in range(4)])
+    contract(L3 + '::Interp1DLagrange3.interpolate', ['C15', 'C16'],
+             dict(self=Obj('Interp1DLagrange3', grid=TupleT(Arr(5)), values=Arr(5), coeffs=DictT({})), x=Arr(1), idx=ListT(_k)),
+             requires=['all(self.grid[0][k] < self.grid[0][k + 1] for k in range(4))'],
+             ensures=['approx(result[0], %s)' % VAL,
+                      'approx(result[1], %s)' % DVAL,
+                      'result[2] is None and result[3] is None',
+                      '%d in self.coeffs' % _ix],
+             modifies=['self.coeffs'], inline={'compute_coeffs'}, native=native_l3, sampler=sample_l3(_k),
+             name=L3 + '::Interp1DLagrange3.interpolate[5-point axis, bracket %d]' % _k,
+             canaries=([('lower extrapolation bracket not shifted onto the first stencil', ('elif i_x < 1:\n            i_x = 1', 'elif i_x < 1:\n            i_x = 2'), 'post')] if _k == -1 else
+                       [('sign of the second Lagrange weight', ('-1.0 / (cx12 * cx23 * cx24)', '1.0 / (cx12 * cx23 * cx24)'), 'post', L3 + '::Interp1DLagrange3.compute_coeffs')] if _k == 2 else []))
